@@ -819,8 +819,8 @@ pub async fn check_state(t: &mut Tbl, st: &mut Streams, sink: &mut Sink, rng: &m
         if oob {
             ranges.push(*rng.pick(&[(n - 1, n + 1), (n - 1, n + 1), (n, n + 1), (n, n + 2), (n - 1, n + 2)]));
         }
-        // offsets a..b contain an out-of-range offset that is not the last one  <=>  max(a, n) < b - 1
-        let scan_class = if ranges.iter().any(|(a, b)| *b >= 1 && (*a).max(n) < *b - 1) { Some("oob_offset_not_last") } else { None };
+        // the offsets a..b are two or more and all out of range  <=>  a >= n and b >= a + 2
+        let scan_class = if ranges.iter().any(|(a, b)| *a >= n && *b >= *a + 2) { Some("all_offsets_oob") } else { None };
         let ds = t.ds.clone();
         let r2 = ranges.clone();
         let readahead = rng.range(1, 4) as usize;
@@ -863,12 +863,13 @@ pub async fn check_state(t: &mut Tbl, st: &mut Streams, sink: &mut Sink, rng: &m
 }
 
 /// Known-finding class of a panicking `take(offsets)`, decided from the INPUT only.
-/// Class `oob_offset_not_last` (Known_C15_oob_offset_not_last in Core/Model_Take.v): some offset other
-/// than the last requested one is >= the number of rows. Its tombstone address u64::MAX then reaches
-/// `last_offset + 1` in check_row_addrs (take.rs) — overflow panic in debug builds.
+/// Class `all_offsets_oob` (Known_C15_all_offsets_oob in Core/Model_Take.v): two or more offsets, all of
+/// them >= the number of rows. Every address is the tombstone; the re-mapping path of do_take_rows finds no
+/// fragment and `batches.pop().unwrap()` panics (take.rs). (The former class oob_offset_not_last — the
+/// `last_offset + 1` overflow — was repaired by repo commit 33efb4f.)
 fn take_panic_class(offs: &[u64], n: u64) -> Option<&'static str> {
-    if offs.len() >= 2 && offs[..offs.len() - 1].iter().any(|o| *o >= n) {
-        Some("oob_offset_not_last")
+    if offs.len() >= 2 && offs.iter().all(|o| *o >= n) {
+        Some("all_offsets_oob")
     } else {
         None
     }
